@@ -62,6 +62,12 @@ func (fc *fctx) instr(ins ssa.Instruction) {
 			tr.protected = append(tr.protected, a)
 			if st, _ := structOf(et); st != nil {
 				tr.protectedTypes[a] = et
+			} else {
+				switch et.Underlying().(type) {
+				case *types.Map, *types.Pointer, *types.Slice:
+					// a local variable holding a map / pointer / slice: what it designates is held by the local
+					tr.protectedTypes[a] = et
+				}
 			}
 		}
 	case *ssa.Store:
